@@ -578,8 +578,13 @@ func (m *mcase) request(id uint32, ttlMs uint32, nframes int, plan []hcmd, short
 		m.lab(5, 0, 0)
 		m.closing = true
 		m.protoStopped = true
+		// stopExchanges notifies every exchange still registered, and the expiry goroutine of a
+		// dispatched call runs until its exchange is gone -- also when the HANDLER has already
+		// returned without finishing the response (a handler whose helper write failed and that only
+		// logs the error): `ended` (the script of the handler is over) says nothing about the
+		// exchange; markShutdown itself skips the calls whose exchange is already gone (expired)
 		for _, oid := range m.sortedIDs() {
-			if oc := m.calls[oid]; oc.started && !oc.ended {
+			if oc := m.calls[oid]; oc.started {
 				m.markShutdown(oc)
 			}
 		}
